@@ -4,6 +4,7 @@ C02 — versioning: every live version stays addressable and the latest is the n
 Theorems about the storage model `Pithos.S3` (tied to /repo by the differential harness `s3h`).
 -/
 import Pithos.Lemmas.S3NewestStep
+import Pithos.Lemmas.S3EditStep
 import Pithos.Props.C01
 
 namespace Pithos.C02
@@ -87,5 +88,37 @@ state in which GET answers an object. -/
 example : (match (step Quirks.none (run Quirks.none {} witnessOps).1 (.get "b" "k" none)).2 with
     | .obj _ => true | _ => false) = true := by
   decide
+
+/-- After any finite history (append behaviour since /repo 8a5dc41) version ids identify rows: in
+every bucket the (key, version id) pairs are pairwise distinct — the null version included — and
+every generated version id is below the allocation counter. -/
+theorem reachable_vinv (q : Quirks) (hq : q.appendLatestInPlace = false) (ops : List Op) :
+    Inv (run q {} ops).1 ∧ VInv (run q {} ops).1 :=
+  run_vinv q hq ops {} (by intro bk hbk; cases hbk) (by intro bk hbk; cases hbk)
+
+/-- **version_addressable.** In every reachable state, every stored version that is an object — a
+ULID version or the null version, current or not — is returned by GET and HEAD with its own
+version id: exactly that version's bytes, size, ETag, metadata. A delete marker addressed by its
+id answers MethodNotAllowed. No version is ever shadowed by another row of the same id. -/
+theorem version_addressable (q : Quirks) (hq : q.appendLatestInPlace = false) (ops : List Op) (b : String)
+    (bk : Bucket) (r : Row) (hfb : findBucket (run q {} ops).1 b = some bk) (hr : r ∈ bk.rows) :
+    (step q (run q {} ops).1 (.get b r.key (some r.vid))).2 = (if r.dm then .err .methodNotAllowed else .obj (viewOf r)) ∧
+    (step q (run q {} ops).1 (.head b r.key (some r.vid))).2 = (if r.dm then .err .methodNotAllowed else .obj (viewOf r)) := by
+  obtain ⟨_, hv⟩ := reachable_vinv q hq ops
+  have hrow := rowByVid_of_mem (hv bk (findBucket_mem hfb)) hr
+  have hfb' : findBucket { (run q {} ops).1 with clock := (run q {} ops).1.clock + 1 } b = some bk := hfb
+  constructor <;>
+  · simp only [step, stepT, hfb', resolve, hrow]
+    by_cases hd : r.dm = true <;> simp [hd]
+
+/-- Non-vacuity: three versions of one key (one of them the null version) are all addressable. -/
+example :
+    let s := (run Quirks.code {} [.mkb "b", .put "b" "k" [1] {} false .none, .setVer "b" .enabled,
+      .put "b" "k" [2] {} false .none, .put "b" "k" [3] {} false .none]).1
+    ((step Quirks.code s (.get "b" "k" (some none))).2 matches .obj { body := [1], .. }) ∧
+    ((step Quirks.code s (.get "b" "k" (some (some 0)))).2 matches .obj { body := [2], .. }) ∧
+    ((step Quirks.code s (.get "b" "k" (some (some 1)))).2 matches .obj { body := [3], .. }) := by
+  decide
+
 
 end Pithos.C02
